@@ -185,7 +185,11 @@ class C05(Prop):
             "c05.load: suite files below a temp dir (same base name in different directories in every run, non-yaml names, missing "
             "paths, a path twice, two files defining one suite) through the real testsuites.LoadTestSuitesFromFiles + parseTestSuites "
             "(compared: error class or the loaded suites) and through the real Run() with child peers (compared: the test names handed "
-            "to the client, the printed total).")
+            "to the client, the printed total)."
+            " detail 3 (run from extra(), never shrunk): client mode with BOTH in-process server kinds (reference, then grpc-go) having "
+            "batches (Connect + gRPC + gRPC-Web suites), max-servers 1 and 2, sorted and map order; the scripted client holds its answers "
+            "until no request has arrived for 400 ms and at every request dials every server address seen so far: the number of servers "
+            "accepting connections at once, across the two kinds, is compared with the model's max_alive <= max-servers.")
     trusted_base = ("Coq 8.16.1 kernel (vm_compute used, native_compute not)", "extraction (ExtrOcamlBasic only) + ocaml/driver.ml",
                     "vlib generators/comparator, Go overlay harness (harness/C05): coordinator, scripted peer processes",
                     "modelled not verified: golang.org/x/sync/semaphore.Weighted (a counter bounded by MaxServers), sync.WaitGroup, "
@@ -245,6 +249,18 @@ class C05(Prop):
         script = gen_script(rng, suites, ds, rng.randint(3, 14)) if lockstep else []
         return ["c05.run", detail, lockstep, verbose, maxs, missing, runp, skipp, suites, ds, script]
 
+    def hold_case(self, rng, maxs, verbose):
+        """client mode with BOTH in-process server kinds (reference, then grpc-go) having batches: a Connect, a gRPC and
+        a gRPC-Web suite; detail 3 = the scripted client holds its answers, so every batch the semaphore admits is open
+        when the client counts the servers that accept connections (max alive across the kinds <= --max-servers)."""
+        suites = []
+        for i, (proto, ver) in enumerate([(1, 1), (2, 2), (3, rng.choice([1, 2]))] + ([(2, 2)] if rng.random() < 0.5 else [])):
+            templates = [["c%d%d" % (i, j), False, [], False, False, []] for j in range(rng.randint(1, 2))]
+            suites.append(["S%d" % i, rng.choice([0, 1]), proto, ver, 1, rng.choice([1, 2]) if i < 3 else 3, False, False, templates])
+        rng.shuffle(suites)
+        ds = gen_decisions(rng, suites, fail_rate=0.0)
+        return ["c05.run", 3, False, verbose, maxs, False, [], [], suites, ds, []]
+
     def generate(self, rng, tier):
         quick = tier == "quick"
         # which --test-file suite files take part: two files of the same base name in different directories in
@@ -298,9 +314,28 @@ class C05(Prop):
             yield self.run_case(rng, 2, lockstep=False)
 
     # -- thorough tier: free-running schedules under the race detector, several GOMAXPROCS ----
+    def hold_runs(self, ctx):
+        """client mode, both in-process server kinds, held answers (detail 3): the bound on live servers across the
+        kinds.  Run from extra() rather than the generated stream because a disagreement here must not be
+        shrunk (every candidate is a run of several seconds); the unshrunk case is the replay."""
+        import random
+        rng = random.Random(ctx.seed * 7919 + 11)
+        combos = ((1, True), (1, False), (2, True), (2, False)) if ctx.tier == "quick" else \
+            [(m, v) for m in (1, 1, 2, 2, 3) for v in (True, False)] * 3
+        cases = [self.hold_case(rng, maxs, verbose) for maxs, verbose in combos]
+        g, m = ctx.eval_both(cases, "hold")
+        bad = [i for i in range(len(cases)) if g[i] != m[i]]
+        ctx.notes["hold_runs"] = "%d client-mode runs with held answers (both server kinds), %d disagreements" % (len(cases), len(bad))
+        vs = []
+        for i in bad[:2]:
+            body = "; C05: %s\n; impl : %s\n; model: %s\n; replay: ./check C05 --replay <this file>\n%s\n" % (
+                self.describe(cases[i], g[i], m[i]), g[i], m[i], core.sx([cases[i][0], 0] + list(cases[i][1:])))
+            vs.append(core.Violation("disagreement on %s" % core.sx(cases[i])[:300], body))
+        return vs
+
     def extra(self, ctx):
         if ctx.tier != "thorough":
-            return []
+            return self.hold_runs(ctx)
         import random
         rng = random.Random(ctx.seed * 7919 + 5)
         cases = []
@@ -318,7 +353,7 @@ class C05(Prop):
         core.run_model(self, path, mo)
         mres = core.read_results(mo)
         binp = core.go_test_bin(self, self.packages["cc"], race=True)
-        vs = []
+        vs = self.hold_runs(ctx)
         for procs in (1, 4, 16):
             out = os.path.join(ctx.work, "race.%d.go.out" % procs)
             if os.path.exists(out):
